@@ -227,6 +227,9 @@ class Package:
             if os.environ.get("VERIF_NO_CANON") != "1":
                 from .canon import canonicalise
                 tree = canonicalise(tree)
+            if os.environ.get("VERIF_NO_CONSTS") != "1":
+                from .consts import inline_private_constants
+                tree = inline_private_constants(tree)
             if os.environ.get("VERIF_NO_HELPER_INLINING") != "1":
                 from .helpers import expand_new_private_helpers
                 tree = expand_new_private_helpers(tree, fn[:-3])
